@@ -190,6 +190,8 @@ fn manifest_table_internal(
 	cur_padding: &mut String,
 	options: &TomlFormat<'_>,
 ) -> Result<()> {
+	// Nested tables may be cyclic (`local a = { x: a }`), recursion should be bounded
+	let _guard = jrsonnet_evaluator::stack::check_depth()?;
 	let mut sections = Vec::new();
 	let mut first = true;
 	for (key, value) in obj.iter(
